@@ -985,7 +985,7 @@ def check_C12(sc, v, tier, seed, replay):
     jobs = []
     for i in range(2 if tier == "quick" else 6):
         scn, text = online.make_scenario(random.Random(seed * 1049 + i), {"reg": 2, "pdu": 2, "svc": 0, "rel": 0, "dereg": 0},
-                                         opts={"det": i + seed % 2, "mnc_len": 2 + i % 2, "fill": 1 + i % 2})
+                                         opts={"det": i + seed % 2, "mnc_len": 2 + i % 2, "fill": 1 + i % 2, "tail_ie": 2 - i % 2})
         jobs.append(("est%02d" % i, scn, text))
     runs = online.run_many(sc, emu, jobs, parallel=8)
     _online_collect(v, runs, "C12", sc)
